@@ -149,7 +149,7 @@ class BatchSage:
             permutation_chain = [self.feature_names[idx]
                                  for idx in np.random.permutation(len(self.feature_names))]
             loss_previous = self._loss_function(y_i, marginal_prediction)
-            features_not_in_s = set(self.feature_names)
+            features_not_in_s = list(self.feature_names)  # ordered: a set would iterate in string-hash order
             for feature in permutation_chain:
                 features_not_in_s.remove(feature)
                 predictions = self._imputer.impute(
